@@ -30,9 +30,22 @@ class Module:
             if os.path.exists(p):
                 self.path = p
                 break
-        if self.path is None:
+        self.pyx_dropped = None
+        if self.path is None and os.path.exists(os.path.join(self.repo, rel + ".pyx")):
+            # a Cython module: translated mechanically to Python text on every run (pyvc/pyx.py states the subset)
+            from . import pyx
+            d = os.path.dirname(rel)
+            names = sorted(f for f in os.listdir(os.path.join(self.repo, d)) if f.endswith((".pyx", ".pxd")))
+            sigs = pyx.signatures(self.repo, [os.path.join(d, f) for f in names])
+            self.path = os.path.join(self.repo, rel + ".pyx")
+            try:
+                self.text, self.pyx_dropped = pyx.translate(self.repo, rel + ".pyx", sigs)
+            except pyx.PyxError as e:
+                raise SourceError("cannot translate %s: %s" % (self.path, e))
+        elif self.path is None:
             raise SourceError("module %s not found under %s" % (dotted, self.repo))
-        self.text = open(self.path, encoding="utf-8").read()
+        else:
+            self.text = open(self.path, encoding="utf-8").read()
         try:
             self.tree = ast.parse(self.text)
         except SyntaxError as e:
